@@ -66,7 +66,7 @@ Print Assumptions C03_loose.
 Theorem C03_strict : forall T h q, 1 <= T < 2 ^ 31 -> Height T = Z.of_nat h -> (length q <= h)%nat ->
   stored T q = true ->
   PathToIndex T (enc h q) = Some (Z.of_nat (length (filter (fun r => pre_ltb r q) (stored_nodes T h)))).
-Proof. intros T h q HT HH Hq _. exact (PathToIndex_pre_rank T h q HT HH Hq). Qed.
+Proof. exact C03_strict_stmt. Qed.
 Print Assumptions C03_strict.
 
 (** the boolean [pre_ltb] used in the two statements above is the order [pre_lt] *)
@@ -163,7 +163,7 @@ Theorem C03_checker_loose : forall T q (dbg : bool), 1 <= T < 2 ^ 31 ->
   (if dbg then PathToIndexLoose_debug else PathToIndexLoose) T
      (NewPath (valL (Z.to_nat (Height T)) q) (Z.of_nat (length q)) (Height T))
   = Some (spec_loose T (Z.to_nat (Height T)) q).
-Proof. intros T q dbg HT Hq. exact (checker_loose T q HT Hq dbg). Qed.
+Proof. exact C03_checker_loose_stmt. Qed.
 Print Assumptions C03_checker_loose.
 
 Theorem C03_checker_strict : forall T q (dbg : bool), 1 <= T < 2 ^ 31 ->
@@ -171,7 +171,7 @@ Theorem C03_checker_strict : forall T q (dbg : bool), 1 <= T < 2 ^ 31 ->
   (if dbg then PathToIndex_debug else PathToIndex) T
      (NewPath (valL (Z.to_nat (Height T)) q) (Z.of_nat (length q)) (Height T))
   = Some (spec_rank T (Z.to_nat (Height T)) q).
-Proof. intros T q dbg HT Hq. exact (checker_strict T q HT Hq dbg). Qed.
+Proof. exact C03_checker_strict_stmt. Qed.
 Print Assumptions C03_checker_strict.
 
 (** * widening: the index of a node and the indexes of its descendants (what a user who walks the tree
@@ -233,7 +233,7 @@ Theorem C03_key_index : forall T h s from (dbg : bool), 1 <= T < 2 ^ 31 -> Heigh
   exists p, PathOf s from (Z.of_nat h) = Some p /\
     (if dbg then PathToIndexLoose_debug else PathToIndexLoose) T p =
     Some (pre_rank T h (key_node s from h), Z.b2z (stored T (key_node s from h))).
-Proof. intros T h s from dbg HT HH Hs Hf Hov Hlen. exact (key_index T h s from HT HH Hs Hf Hov Hlen dbg). Qed.
+Proof. exact C03_key_index_stmt. Qed.
 Print Assumptions C03_key_index.
 
 Theorem C03_key_index_strict : forall T h s from (dbg : bool), 1 <= T < 2 ^ 31 -> Height T = Z.of_nat h ->
@@ -241,7 +241,7 @@ Theorem C03_key_index_strict : forall T h s from (dbg : bool), 1 <= T < 2 ^ 31 -
   stored T (key_node s from h) = true ->
   exists p, PathOf s from (Z.of_nat h) = Some p /\
     (if dbg then PathToIndex_debug else PathToIndex) T p = Some (pre_rank T h (key_node s from h)).
-Proof. intros T h s from dbg HT HH Hs Hf Hov Hlen. exact (key_index_strict T h s from HT HH Hs Hf Hov Hlen dbg). Qed.
+Proof. exact C03_key_index_strict_stmt. Qed.
 Print Assumptions C03_key_index_strict.
 
 (** the key operations of the correspondence run in their own terms (Run/C03.v [op_key_loose]) *)
@@ -282,7 +282,7 @@ Print Assumptions C03_contracts_strict.
 Theorem C03_raw_loose : forall T w (eqb : Z * Z -> Z * Z -> bool), - 2 ^ 31 <= T < 2 ^ 31 -> 0 <= w < 2 ^ 64 ->
   (forall a, eqb a a = true) ->
   expect_accepts eqb (raw_loose_expect T w) (PathToIndexLoose_debug T w) = true.
-Proof. intros T w eqb HT Hw. exact (raw_loose_accepts T w HT Hw eqb). Qed.
+Proof. exact C03_raw_loose_stmt. Qed.
 Print Assumptions C03_raw_loose.
 
 Theorem C03_raw_strict : forall T w, - 2 ^ 31 <= T < 2 ^ 31 -> 0 <= w < 2 ^ 64 ->
